@@ -227,8 +227,8 @@ class BuiltinMixin:
                 return [(st, VBool(z3.BoolVal(self.class_attr(h.cls[0], h.cls[1], n) is not None)))]
             f = z3.Function("ref_hasattr$" + n, U, B)
             return [(st, VBool(f(box(v))))]
-        if isinstance(v, (VStr, VInt, VBool, VNone, VFlt, VTuple)):
-            py = {"VStr": "", "VInt": 0, "VBool": True, "VNone": None, "VFlt": 0.0, "VTuple": ()}[type(v).__name__]
+        if isinstance(v, (VStr, VInt, VBool, VNone, VFlt, VTuple, VRange)):
+            py = {"VStr": "", "VInt": 0, "VBool": True, "VNone": None, "VFlt": 0.0, "VTuple": (), "VRange": range(0)}[type(v).__name__]
             return [(st, VBool(z3.BoolVal(hasattr(py, n))))]
         if isinstance(v, VRef):
             py = {HList: [], HDict: {}, HODict: {}, HIter: iter(()), HCIter: iter(()), HDeque: []}.get(type(st.deref(v)))
@@ -268,6 +268,12 @@ class BuiltinMixin:
 
     def b_identity_decorator(self, st, args, kwargs):
         return [(st, args[0])]
+
+    def b_typing_cast(self, st, args, kwargs):
+        return [(st, args[1])]
+
+    def b_cast(self, st, args, kwargs):
+        return [(st, args[1])]
 
     def b_callable(self, st, args, kwargs):
         v = args[0]
@@ -357,7 +363,7 @@ class BuiltinMixin:
 
     def int_str_limit_const(self, st):
         lim = z3.Int("INT_STR_LIMIT")
-        st.assume(lim >= 10**18)
+        st.assume(lim >= 2**64)
         return lim
 
     def b_str(self, st, args, kwargs):
